@@ -78,7 +78,8 @@ def worker_loop(ctx) -> None:
         raise core.AnalysisError('Pool.Worker.run: work try block not found')
     # the outcome is computed from the entry of the same task
     succ = [c for c in allputs if isinstance(c.args[0], ast.Call) and c.args[0].func.attr == 'success']
-    ctx.check(len(succ) == 1 and f'{tvar}.entry' in core.src(succ[0]), 'R-EXACTLY-ONE', fn, 'the outcome is computed from the entry of the same task', succ[0] if succ else loop, key='worker:entry')
+    inl = core.src(fn.inlined().node)
+    ctx.check(len(succ) == 1 and (f'{tvar}.entry' in core.src(succ[0]) or f'{tvar}.success(self._runner.call({tvar}.entry))' in inl or (lambda x: f'{x}.success(self._runner.call({x}.entry))' in inl)(core.src(fetch.value))), 'R-EXACTLY-ONE', fn, 'the outcome is computed from the entry of the same task', succ[0] if succ else loop, key='worker:entry')
     # failure isolation
     for h in work_try.handlers:
         tname = core.src(h.type) if h.type is not None else 'bare'
